@@ -79,6 +79,7 @@ type FakeProxy struct {
 	// OnUploadChunk sees upload body bytes as they arrive (for the streaming check).
 	OnUploadBytes func(q *FPRequest, b []byte)
 	IdleReply     time.Duration // how long an empty poll is held
+	Strays        int           // requests from anything but the harness's own agent (ignored)
 }
 
 func NewFakeProxy() *FakeProxy {
@@ -147,6 +148,14 @@ func (fp *FakeProxy) QueueLen() int {
 }
 
 func (fp *FakeProxy) serve(w http.ResponseWriter, r *http.Request) {
+	if id := r.Header.Get(HdrBackendID); id != BackendIDFor(fp.URL) {
+		// not the harness's agent (a stray process that happens to be configured with this port)
+		fp.mu.Lock()
+		fp.Strays++
+		fp.mu.Unlock()
+		http.Error(w, "unknown backend", http.StatusNotFound)
+		return
+	}
 	switch {
 	case strings.HasSuffix(r.URL.Path, "agent/pending"):
 		fp.serveList(w, r)
